@@ -11,6 +11,7 @@ import Gts.Lemmas.RefInfo
 import Gts.Lemmas.Record
 import Gts.Props.C04
 import Gts.Lemmas.MarksDelAll
+import Gts.Lemmas.MarkGuardOps
 namespace Gts.C03
 open Gts Loc
 
@@ -204,6 +205,16 @@ theorem expand_del_marks3_partial (l : Loc) (i k : Int) (hw : wf l = true) (hk :
     (hg : expandMarkAbs l i (-k) = false) (h3 : outer3Kept l i k = true) :
     (outerMarks (expand l i (-k))).2 = ((outerMarks l).2 || remAt i k (den l).getLast?) :=
   (expand_del_outer l i k hw hk hg).2 h3
+
+/-- … both ends under the hypotheses of `expand_del_partial` (K2 guard) plus duplicate-freeness —
+the conditions under which the Go oracle evaluates the two marker clauses -/
+theorem expand_del_marks_nodup_partial (l : Loc) (i k : Int) (hw : wf l = true) (hk : 0 < k)
+    (hk2 : expandAbs l i (-k) = false) (hnd : (den l).Nodup) :
+    (outer5Kept l i k = true →
+      (outerMarks (expand l i (-k))).1 = ((outerMarks l).1 || remAt i k (den l).head?)) ∧
+    (outer3Kept l i k = true →
+      (outerMarks (expand l i (-k))).2 = ((outerMarks l).2 || remAt i k (den l).getLast?)) :=
+  expand_del_outer l i k hw hk (expandDelMarkAbs_of_nodup l i k hw hk hk2 hnd)
 
 /-- **when every residue was removed** the result consists of zero-length sites only (every
 leaf is a between-site), so it denotes nothing and carries no marker — every kind and arity, no
